@@ -98,7 +98,7 @@ LEAVES = [7, 'str leaf', None]
 # every shape is run once per leaf value (strings that look like other
 # literals included)
 LEAF_VALUES = [7, 'str leaf', None, 'False', 'true', 'TRUE', '7', 'None',
-               " 'q' ", True, 1.5, (1, 'a'), '']
+               " 'q' ", True, 1.5, (1, 'a'), '', 'a=b', ['--alpha=1', '=']]
 NCHUNK = 32
 
 
@@ -659,6 +659,38 @@ def run_legacy(res, max_len):
           elif out == 'ok' and canon.canon_cfg(real) != canon.canon_cfg(ref):
             res.violation('C18/legacy-tags/override-changed-something-else',
                           f'{case}: got {real!r} expected {ref!r}', case)
+    # the whole legacy entry point: fiddlers, then tags, then overrides
+    # (documented order), whatever the order on the command line
+    pieces = {'fiddler': ['--fiddler=set_x_to_fiddled'],
+              'tag': [f'--fdl_tag.{N.TagC.name}=0.5'],
+              'override': ['--fdl.x=0.3']}
+    for r in range(1, 4):
+      for combo in itertools.permutations(pieces, r):
+        argv = ['--fdl_config=tagged_base'] + [
+            a for name in combo for a in pieces[name]]
+        case = {'legacy_entry_point': list(combo)}
+        ref = flagmod.tagged_base()
+        if 'fiddler' in combo:
+          flagmod.set_x_to_fiddled(ref)
+        if 'tag' in combo:
+          ref.x = 0.5
+          ref.y = 0.5
+        if 'override' in combo:
+          ref.x = 0.3
+        parse(argv)
+        res.states += 1
+        res.transitions += 1
+        res.nontrivial += 1
+        try:
+          real = legacy_flags.create_buildable_from_flags(flagmod)
+        except Exception as e:  # pylint: disable=broad-except
+          res.violation('C18/legacy-entry-point/raises', f'{case}: {e!r}',
+                        case)
+          continue
+        res.outcomes['legacy-entry:ok'] += 1
+        if canon.canon_cfg(real) != canon.canon_cfg(ref):
+          res.violation('C18/legacy-entry-point/order-of-application',
+                        f'{case}: got {real!r} expected {ref!r}', case)
   finally:
     FLAGS.unparse_flags()
     FLAGS(['prog'])
@@ -701,7 +733,8 @@ def replay(case):
   res = core.Result()
   if _KK is None:
     _KK = kinds()
-  if 'legacy_overrides' in case or 'legacy_tag_value' in case:
+  if ('legacy_overrides' in case or 'legacy_tag_value' in case or
+      'legacy_entry_point' in case):
     run_legacy(res, 3)
     res.violations = [v for v in res.violations if v['case'] == case]
   elif 'shape' in case:
